@@ -1,0 +1,115 @@
+//go:build verif
+
+// Package verifhook provides named schedule/crash points for external
+// verification harnesses. With the "verif" build tag a point can delay the
+// calling goroutine or end the process; it never changes a value or skips
+// code, so every behaviour seen with hooks on is a behaviour of a real
+// schedule or a real crash.
+//
+// Configuration:
+//   - environment variable VERIF_HOOKS (read once), for plugin subprocesses:
+//     "name[#n]=action[+action...];name2=..." where n selects the n-th hit of
+//     the point (1-based; absent = every hit) and action is one of
+//     sleep:<duration>, kill (SIGKILL to self), exit:<code>, mark:<file>
+//     (append a line with the point name and a timestamp).
+//   - Set(func(name string)) installs an in-process callback.
+package verifhook
+
+import (
+	"fmt"
+	"os"
+	"strconv"
+	"strings"
+	"sync"
+	"sync/atomic"
+	"syscall"
+	"time"
+)
+
+type rule struct {
+	nth     int
+	actions []string
+}
+
+var (
+	once   sync.Once
+	rules  map[string][]rule
+	hits   sync.Map // name -> *int64
+	cb     atomic.Value
+	hasEnv bool
+)
+
+type cbHolder struct{ f func(string) }
+
+// Set installs (or, with nil, removes) the in-process callback invoked at
+// every point.
+func Set(f func(name string)) { cb.Store(cbHolder{f}) }
+
+func load() {
+	rules = map[string][]rule{}
+	spec := os.Getenv("VERIF_HOOKS")
+	if spec == "" {
+		return
+	}
+	for _, item := range strings.Split(spec, ";") {
+		item = strings.TrimSpace(item)
+		if item == "" {
+			continue
+		}
+		kv := strings.SplitN(item, "=", 2)
+		if len(kv) != 2 {
+			continue
+		}
+		name := kv[0]
+		r := rule{}
+		if i := strings.IndexByte(name, '#'); i >= 0 {
+			r.nth, _ = strconv.Atoi(name[i+1:])
+			name = name[:i]
+		}
+		r.actions = strings.Split(kv[1], "+")
+		rules[name] = append(rules[name], r)
+		hasEnv = true
+	}
+}
+
+// Point marks a named place in the code.
+func Point(name string) {
+	once.Do(load)
+	if hasEnv {
+		if rs, ok := rules[name]; ok {
+			v, _ := hits.LoadOrStore(name, new(int64))
+			n := int(atomic.AddInt64(v.(*int64), 1))
+			for _, r := range rs {
+				if r.nth != 0 && r.nth != n {
+					continue
+				}
+				for _, a := range r.actions {
+					act(name, a)
+				}
+			}
+		}
+	}
+	if h, ok := cb.Load().(cbHolder); ok && h.f != nil {
+		h.f(name)
+	}
+}
+
+func act(name, a string) {
+	switch {
+	case strings.HasPrefix(a, "sleep:"):
+		if d, err := time.ParseDuration(a[6:]); err == nil {
+			time.Sleep(d)
+		}
+	case a == "kill":
+		syscall.Kill(os.Getpid(), syscall.SIGKILL)
+		time.Sleep(time.Hour)
+	case strings.HasPrefix(a, "exit:"):
+		code, _ := strconv.Atoi(a[5:])
+		os.Exit(code)
+	case strings.HasPrefix(a, "mark:"):
+		if f, err := os.OpenFile(a[5:], os.O_APPEND|os.O_CREATE|os.O_WRONLY, 0o644); err == nil {
+			fmt.Fprintf(f, "%s %d %d\n", name, os.Getpid(), time.Now().UnixNano())
+			f.Close()
+		}
+	}
+}
